@@ -29,7 +29,7 @@ def cases(tier, seed):
 
 def opts(tier):
     return {'logic': 'QF_LIA', 'qtimeout_ms': 10000, 'final_timeout_ms': 30000, 'max_paths': 8000 if tier == 'quick' else 40000,
-            'case_timeout_s': 300 if tier == 'quick' else 1800, 'scalar_mode': 'Z',
+            'case_timeout_s': 300 if tier == 'quick' else 1200, 'scalar_mode': 'Z',
             'setup': {'factor_mode': 'havoc', 'fresh': 'havoc', 'select_mode': 'ite'}}
 
 
